@@ -84,7 +84,7 @@ def same(a, b) -> bool:
     return False
 
 
-CONTEXTS = ["from_dict", "ctor_dict", "binding", "nixlist", "setitem_parsed", "setitem_nested", "scope_setitem", "setitem_overwrite", "setitem_overwrite_nested"]
+CONTEXTS = ["from_dict", "ctor_dict", "binding", "nixlist", "setitem_parsed", "setitem_nested", "scope_setitem", "setitem_overwrite", "setitem_overwrite_nested", "overwrite_after_render", "overwrite_after_failed_render"]
 
 
 def build(ctx, value, first=None):
@@ -121,6 +121,21 @@ def build(ctx, value, first=None):
             src["n"]["v"] = first
         src["n"]["v"] = value
         return src, (lambda d: d["n"]["v"])
+    if ctx in ("overwrite_after_render", "overwrite_after_failed_render"):
+        # history with renders in between: what was rendered before an assignment must not show up after it;
+        # in the second variant a render that fails (NaN has no Nix spelling) happened earlier in the same thread
+        if ctx == "overwrite_after_failed_render":
+            try:
+                AttributeSet.from_dict({"ok": 1, "ratio": float("nan")}).rebuild()
+            except Exception:  # noqa: BLE001 - how non-finite floats are refused is not this context's business
+                pass
+        src = nima.parse("{\n  n = {\n    k = 1;\n  };\n}\n")
+        src["v"] = first if first is not None else {"old": 1, "gone": [1, 2]}
+        src["n"]["v"] = first if first is not None else "old"
+        src.rebuild()
+        src["v"] = value
+        src["n"]["v"] = value
+        return src, (lambda d: d["v"] if same(d["v"], d["n"]["v"]) else ["top and nested differ", d["v"], d["n"]["v"]])
     if ctx == "scope_setitem":
         src = nima.parse("let\n  k = 1;\nin\n{ a = k; }\n")
         src.expr.scope["v"] = value
@@ -349,7 +364,7 @@ def run_shard(sh):
         if feats & blocked_feats:
             sh.excluded += 1
             return
-        if not ctx.startswith("setitem_overwrite"):
+        if "overwrite" not in ctx:
             first = None
         case = {"ctx": ctx, "value": _encode(value), "first": _encode(first)}
         fails = judge(ctx, value, first)
